@@ -115,7 +115,9 @@ def main():
                 continue  # obligation belongs to another property's contract set
             relevant_fail.append(f)
         # obligations that belong to another property's contract set are not part of this claim
-        n_obl = r.get("obligations", r["verified"] + r["errors"]) - (len(r["failures"]) - len(relevant_fail))
+        n_obl = r.get("obligations", r["verified"] + r["errors"])
+        if r["backend"] == "kani":
+            n_obl -= (len(r["failures"]) - len(relevant_fail))
         n_dis = r.get("discharged", r["verified"])
         for bl in r.get("bounded_list", []):
             bounded.append(f"[{r['unit']}] {bl}")
